@@ -1,7 +1,7 @@
 (* C11 — The framework is quiescent between reaction trees.  Statements only; proofs in proofs/{RunnerInv,TicketInv,TopLevel}.v.
    `run P fuel` executes the top-level operations of P one after the other; every one of them is an outermost flush. *)
 From Cobweb Require Import Machine.
-From CobwebProofs Require Import RunnerInv TicketInv TopLevel.
+From CobwebProofs Require Import RunnerInv TicketInv PollSpec QuietSpec TopLevel.
 
 (* after ANY sequence of top-level operations of ANY program (aborted, postponed, discarded, self-despawning commands
    included): the tree counter is 0, nothing is postponed, no system command is missing its callback, none of the four
@@ -31,6 +31,11 @@ Proof. exact exec_ticket. Qed.
 
 Check quiescent_after_every_tree : forall (P : program) (fuel : nat) (w' : world), run P fuel = Ok w' -> quiescent w'.
 
+(* "nothing is waiting to run" includes the polled reactions: when the runner returns, no removal record is unread and
+   no despawned watched entity is waiting on the channel (RSeq holds in every reachable state, PollSpec) *)
+Theorem no_unpolled_removal_or_despawn_when_a_tree_returns : forall (P : program) f t su cl w w', RSeq w -> exec P f (IRunner t su cl) w = Ok w' -> Quiet w'.
+Proof. exact tree_ends_polled. Qed.
+
 (* non-vacuity: a program whose single tree postpones two self-sent system events and aborts one aimed at a dead system *)
 Definition ex_prog : program :=
   mkProgram [mkSys 101 Plain false true None; mkSys 102 Plain false false None]
@@ -50,3 +55,4 @@ Print Assumptions quiescent_after_every_tree.
 Print Assumptions quiescent_between_trees.
 Print Assumptions runner_invariant.
 Print Assumptions tracker_invariant.
+Print Assumptions no_unpolled_removal_or_despawn_when_a_tree_returns.
